@@ -129,6 +129,7 @@ theorem queue_work_balanced : balanced queueWork = true := by decide
 theorem getaddrinfo_balanced : balanced getaddrinfoAsync = true := by decide
 theorem pipe_bind_balanced : balanced pipeBind = true := by decide
 theorem fs_poll_start_balanced : balanced fsPollStart = true := by decide
+theorem fs_event_start_balanced (newWd : Bool) : balanced (fsEventStart newWd) = true := by cases newWd <;> decide
 
 /-- `uv_spawn` before the fork: for every number of stdio pipes and both array placements, each failing socketpair
 (and the failing array allocation) leaves no descriptor and no allocation behind -/
@@ -177,18 +178,18 @@ theorem os_environ_balanced (n : Nat) : balanced (osEnviron n) = true := by
   simp only [balanced, osEnviron, balancedFrom, hz, hz0, h]
   simp
 /-- **fault_atomic** for the catalogue: `uv_write2`, `uv__udp_send`, `uv_fs_*`, `uv_queue_work`, `uv_getaddrinfo`,
-`uv_pipe_bind`, `uv_spawn` (up to the fork), `uv_fs_poll_start`, `uv_os_environ`, for all their parameters -/
-theorem catalogue_fault_atomic (nbufs npipes nenv : Nat) (wasActive heap async : Bool) (a : FsAlloc)
+`uv_pipe_bind`, `uv_spawn` (up to the fork), `uv_fs_poll_start`, `uv_fs_event_start`, `uv_os_environ`, for all their parameters -/
+theorem catalogue_fault_atomic (nbufs npipes nenv : Nat) (wasActive heap async newWd : Bool) (a : FsAlloc)
     (st : D) (k e : Nat) (he : 0 < e) :
     ∀ op ∈ [uvWrite2 nbufs, udpSend nbufs wasActive, fsOp async a, queueWork, getaddrinfoAsync, pipeBind,
-            uvSpawnPre npipes heap, fsPollStart, osEnviron nenv],
+            uvSpawnPre npipes heap, fsPollStart, fsEventStart newWd, osEnviron nenv],
       ((runFrom op st (some (k, e))).2 = 0 ∧ (runFrom op st (some (k, e))).1 = st + total op) ∨
       ((runFrom op st (some (k, e))).1 = st ∧ (runFrom op st (some (k, e))).2 < 0 ∧
          ∃ kind, (runFrom op st (some (k, e))).2 = errCode kind e) := by
   intro op hop
   apply fault_atomic _ _ st k e he
   simp only [List.mem_cons, List.not_mem_nil, or_false] at hop
-  rcases hop with rfl | rfl | rfl | rfl | rfl | rfl | rfl | rfl | rfl
+  rcases hop with rfl | rfl | rfl | rfl | rfl | rfl | rfl | rfl | rfl | rfl
   · exact uv_write2_balanced _
   · exact udp_send_balanced _ _
   · exact fs_op_balanced _ _
@@ -197,6 +198,7 @@ theorem catalogue_fault_atomic (nbufs npipes nenv : Nat) (wasActive heap async :
   · exact pipe_bind_balanced
   · exact uv_spawn_pre_balanced _ _
   · exact fs_poll_start_balanced
+  · exact fs_event_start_balanced _
   · exact os_environ_balanced _
 
 -- the hypotheses are met by non-trivial states, and faults do hit
@@ -208,7 +210,7 @@ example : runFrom (uvSpawn 3 true) ⟨0, 5, 9, 1, 1, 0⟩ none = (⟨0, 5, 12, 2
 example : runFrom (osEnviron 4) ⟨0, 2, 3, 0, 0, 0⟩ (some (3, ENOMEM)) = (⟨0, 2, 3, 0, 0, 0⟩, -12) := by decide
 example : runFrom pipeBind D.zero (some (2, ENOMEM)) = (D.zero, -12) := by decide
 
-/-! ### what the model says about the code before the recorded fixes, and one open case -/
+/-! ### what the model says about the code before the recorded fixes -/
 
 /-- seeded revert L5: `uv_write2` before fix 78db063 is not fault-atomic — the ENOMEM return leaves
 `active_reqs` incremented (the loop then stays alive for ever) -/
@@ -222,24 +224,10 @@ theorem fs_poll_start_old_not_atomic : runFrom fsPollStartOld D.zero (some (1, E
 /-- mutation "drop the uv__close on the uv_pipe_bind error path": a descriptor leaks -/
 theorem pipe_bind_no_close_leaks : runFrom pipeBindNoClose D.zero (some (2, ENOMEM)) = (⟨0, 0, 1, 0, 0, 0⟩, -12) := by decide
 
-def fs_event_start_full_statement : Prop := ∀ newWd, balanced (fsEventStart newWd) = true
-
-/-- **negation with witness** (current tree, unix/linux.c:2675-2686): when the path is new to the loop and the
-watcher_list allocation fails, `uv_fs_event_start` returns UV_ENOMEM but the kernel watch created by
-inotify_add_watch stays (no inotify_rm_watch) -/
-theorem fs_event_start_watch_leak : ¬ fs_event_start_full_statement ∧
-    runFrom (fsEventStart true) D.zero (some (1, ENOMEM)) = (⟨0, 0, 0, 0, 0, 1⟩, -12) := by
-  refine ⟨fun h => ?_, by decide⟩
-  have := h true
-  revert this; decide
-
-/-- what does hold: apart from the kernel watch count, `uv_fs_event_start` is fault-atomic (requests, memory,
-descriptors, active handles, queues unchanged on every error return) -/
-theorem fs_event_start_atomic_partial (newWd : Bool) (st : D) (k e : Nat) :
-    (runFrom (fsEventStart newWd) st (some (k, e))).2 ≠ 0 →
-    { (runFrom (fsEventStart newWd) st (some (k, e))).1 with watches := st.watches } = st := by
-  cases newWd <;> (rcases k with _ | _ | k <;> simp [fsEventStart, runFrom, net, Eff.delta, D.zero] <;>
-    (try (intro; apply D.ext <;> simp <;> omega)))
+/-- seeded revert L24: `uv_fs_event_start` before fix d34fc71 — when the path is new to the loop and the watcher_list
+allocation fails, UV_ENOMEM is returned but the kernel watch created by inotify_add_watch stays -/
+theorem fs_event_start_old_watch_leak : balanced (fsEventStartOld true) = false ∧
+    runFrom (fsEventStartOld true) D.zero (some (1, ENOMEM)) = (⟨0, 0, 0, 0, 0, 1⟩, -12) := by decide
 
 /-- `uv_pipe_connect2`: a failing socket()/connect() is never returned; the call returns 0, the request is
 registered (exactly one callback is owed) and the callback carries the mapped code -/
